@@ -117,6 +117,10 @@ def check(model: Model, run: Run) -> None:
                        "L4 messages appended in decode order and processed by a loop that does not touch the list, L5 values handed out are copies. "
                        "The induction itself and equality of the resulting state when a batch contains an error are on paper, not decided")
     common_coverage(ex, run)
+    from ..commonrules import memoised_results_are_immutable
+    memoised_results_are_immutable(model, run, "L12-nothing-on-the-decode-path-is-keyed-on-a-buffer", ("sansldap.asn1", "sansldap._messages", "sansldap._controls", "sansldap._filter",
+                                                                                                         "sansldap._authentication", "sansldap._session"),
+                                   "a message decoded from the session's own buffer differs from the same message decoded from the caller's bytes")
     from ..readerrules import receive_anchor
     fi = receive_anchor(model)
     lemma_no_consume_on_failure(model, run, "C02")
